@@ -23,6 +23,9 @@ import IrVerif.Lemmas.WriterNC
 import IrVerif.Lemmas.WriterPlanWF
 import IrVerif.Lemmas.WriterLayoutSerial
 import IrVerif.Lemmas.WriterPlanShardsWF
+import IrVerif.Lemmas.WriterLayoutShards
+import IrVerif.Lemmas.WriterFlatN
+import IrVerif.Lemmas.WriterMem
 namespace IrVerif.Writer
 
 theorem reachable_inv {cfg : Cfg} (wf : WF cfg) {s : State} (h : Reachable cfg s) :
@@ -273,6 +276,42 @@ theorem preallocb_sound {cfg : Cfg} (h : preallocb cfg = true) : Prealloc cfg :=
 theorem C09_bytes_serial_wb {cfg : Cfg} (wf : WF cfg) (lay : Layout cfg) (pre : Prealloc cfg) {s : State}
     (h : Reachable cfg s) (hm : s.main = .finished false) : s.files = serialFiles (cfgEmpty cfg) := by
   rw [← serial_from_empty lay pre]; exact C09_bytes_serial wf lay h hm
+
+/-! ### the flat model is the one-pool instance of the general model -/
+
+theorem reachable_futs_len {cfg : Cfg} {s : State} (h : Reachable cfg s) : s.futs.length = cfg.nJobs := by
+  induction h with
+  | init => simp [init]
+  | step l _ hst ih => rw [step_futs_length hst]; exact ih
+
+/-- **C09_flat_is_general**: the flat model (single-file parallel writer; shard drivers with serial
+    writers) is the general model `IrVerif.WriterN` on the one-pool configuration `toN cfg`.  The initial
+    states correspond; in every reachable state a flat step and the general model's step on the translated
+    state and label are the SAME partial function (so enabled sets coincide and successor states
+    correspond); the general model has no other enabled label there (labels of pools other than pool 0);
+    whole schedules and `terminal` correspond; well-formedness carries over.  Hence every theorem about
+    `IrVerif.WriterN` — including those about the writer without a callback (`stepNC`), which the flat
+    model does not have — applies to the flat configurations, and the flat theorems above are instances. -/
+theorem C09_flat_is_general (cfg : Cfg) :
+    absState (init cfg) = WriterN.init (toN cfg) ∧
+    (∀ {s : State}, Reachable cfg s → ∀ l : Label,
+      (step cfg s l).map absState = WriterN.step (toN cfg) (absState s) (absLabel l)) ∧
+    (∀ {s : State}, Reachable cfg s → ∀ l' : WriterN.Label,
+      (WriterN.step (toN cfg) (absState s) l').isSome = true → ∃ l, l' = absLabel l) ∧
+    (∀ ls : List Label, (run cfg (init cfg) ls).map absState =
+      WriterN.run (toN cfg) (WriterN.init (toN cfg)) (ls.map absLabel)) ∧
+    (∀ {s : State}, Reachable cfg s → WriterN.Reachable (toN cfg) (absState s)) ∧
+    (∀ s : State, WriterN.terminal (absState s) = terminal s) ∧
+    (WF cfg → WriterN.WF (toN cfg)) := by
+  refine ⟨abs_init cfg, fun hr l => step_abs cfg _ (reachable_futs_len hr) l,
+    fun _ l' h => step_other cfg _ l' h, fun ls => ?_, fun hr => ?_, abs_terminal, toN_wf⟩
+  · rw [← abs_init]; exact run_abs cfg ls (init cfg) (by simp [init])
+  · induction hr with
+    | init => rw [abs_init]; exact .init
+    | step l hr hst ih =>
+        have := step_abs cfg _ (reachable_futs_len hr) l
+        rw [hst] at this
+        exact .step (absLabel l) ih this.symm
 
 /-! ### non-vacuity -/
 
@@ -808,6 +847,93 @@ theorem C09_bytes_serial_layout_sharded (ts : List TSpec) (maxShard al : Option 
   C09_bytes_serial_wb (C09_plan_wf h) (planCfg_layout h) (planCfg_prealloc h)
     (reachable_of_run ls .init hrun) hm
 
+/-- **C09_bytes_serial_layout_c07_sharded**: EVERY concurrent save (one data file or several shards, shard
+    drivers with serial or with nested parallel writers), stated with C07's file model only.  After any
+    schedule, a save that returns normally has left, for every shard `j` of `Layout.shardRaw` (the shards
+    partition the tensors: `C07_shards_partition`), exactly `Layout.serialImage (Layout.writesOf …)` of that
+    shard's tensors — i.e. `Layout.dataFiles … none`, C07's model of the files of the whole save; every write
+    of a shard reads back from that shard's file (`C07_readback`), and every tensor reads back from the
+    `(shard, offset, length)` C07's `placeRaw` records for it (`C07_roundtrip`).  Supersedes
+    `C09_bytes_serial_layout_c07` (one data file). -/
+theorem C09_bytes_serial_layout_c07_sharded (ts : List TSpec) (maxShard al : Option Nat)
+    (athr workers capacity : Nat) {cfg : Cfg} (h : planCfg ts maxShard al athr workers capacity = some cfg)
+    (ls : List Label) {s : State} (hrun : run cfg (init cfg) ls = some s)
+    (hm : (s.pl 0).owner = .closed false) :
+    (shardsOf ts maxShard al athr).flatten = ts ∧
+    s.files = (shardsOf ts maxShard al athr).map
+      (fun sh => Layout.serialImage (Layout.writesOf al athr (sh.map (·.data)))) ∧
+    s.files = Layout.dataFiles (ts.map (·.data)) maxShard al athr none ∧
+    (∀ (j : Nat) (sh : List TSpec), (shardsOf ts maxShard al athr)[j]? = some sh →
+      ∀ w ∈ Layout.writesOf al athr (sh.map (·.data)),
+        Layout.readAt (s.files.getD j []) w.1 w.2.length = w.2) ∧
+    ∀ pb ∈ (Layout.placeRaw ((ts.map (·.data)).map List.length) maxShard al athr).zip (ts.map (·.data)),
+      ∃ img, s.files[pb.1.shard]? = some img ∧ Layout.readAt img pb.1.offset pb.1.length = pb.2 := by
+  have hf := C09_bytes_serial_layout_sharded ts maxShard al athr workers capacity h ls hrun hm
+  rw [planCfg_serial_eq_C07 h] at hf
+  have hd : s.files = Layout.dataFiles (ts.map (·.data)) maxShard al athr none := by
+    rw [dataFiles_eq_shards]; exact hf
+  refine ⟨shardsOf_flatten ts maxShard al athr, hf, hd, ?_, ?_⟩
+  · intro j sh hj w hw
+    have hfile : s.files.getD j [] = Layout.serialImage (Layout.writesOf al athr (sh.map (·.data))) := by
+      rw [hf, List.getD_eq_getElem?_getD, List.getElem?_map, hj]; rfl
+    rw [hfile]
+    exact Layout.C07_readback [] _ _ (List.Perm.refl _) (Layout.writesOf_disjoint al athr _) w hw
+  · intro pb hpb
+    rw [hd]
+    exact Layout.C07_roundtrip (ts.map (·.data)) maxShard al athr pb hpb
+
+
+theorem maxSize_le (cfg : Cfg) (B : Nat) (h : ∀ i, cfg.size i ≤ B) : maxSize cfg ≤ B := by
+  unfold maxSize
+  unfold Cfg.size at h
+  generalize cfg.tensors = l at h
+  induction l with
+  | nil => simp
+  | cons t ts ih =>
+      have h0 := h 0
+      have := ih (fun i => by have := h (i + 1); simpa using this)
+      simp at h0 ⊢; omega
+
+/-- **C09_memory_bound**: the memory bound of the property statement, from the code's own reservation rule
+    instead of reservations given as inputs.  Inputs: the tensor arguments (is it an ExternalTensor, its bytes),
+    the copy chunk size, the arguments of the save, a schedule.  The reservation the writer takes for tensor `i`
+    is `_reservation_bytes` = `min(nbytes, chunk)` for an ExternalTensor and `nbytes` otherwise; what the writing
+    thread holds in a userspace buffer (`peakBytes`: all of `tobytes()`, resp. one buffer of the copy loop of
+    `ExternalTensor.tofile`) never exceeds that reservation; hence in every reachable state of every schedule
+    the bytes held by all threads between `budget.acquire` and `budget.release` are at most
+    `max(max_in_flight_bytes, 1) + max(tensor.nbytes)`. -/
+theorem C09_memory_bound (chunk : Nat) (args : List TArg) (maxShard al : Option Nat)
+    (athr workers capacity : Nat) {cfg : Cfg}
+    (h : planArgs chunk args maxShard al athr workers capacity = some cfg) {s : State}
+    (hr : Reachable cfg s) :
+    (∀ i, cfg.size i =
+      reservationBytes chunk (args.getD i default).external (args.getD i default).data.length) ∧
+    cfg.capacity = max capacity 1 ∧
+    (∀ a : TArg, peakBytes chunk a ≤ reservationBytes chunk a.external a.data.length) ∧
+    heldBytes chunk args s ≤ materialised cfg s ∧
+    heldBytes chunk args s ≤ max capacity 1 + maxNbytes args := by
+  have hs := planCfg_spec h
+  have hsz : ∀ i, cfg.size i =
+      reservationBytes chunk (args.getD i default).external (args.getD i default).data.length := by
+    intro i
+    rw [(size_of_spec hs.1 i).1, getD_map_spec]; rfl
+  have hheld : heldBytes chunk args s ≤ materialised cfg s := by
+    unfold heldBytes materialised
+    apply wsum_le_of_le
+    intro i p
+    split
+    · rw [hsz i]; exact peak_le_reservation chunk _
+    · exact Nat.le_refl _
+  have hb := (C09_budget (C09_plan_wf h) hr).2.2.2.2
+  have hmax : maxSize cfg ≤ maxNbytes args := by
+    apply maxSize_le
+    intro i
+    rw [hsz i]
+    exact Nat.le_trans (reservation_le_nbytes chunk _ _) (nbytes_le_max args i)
+  refine ⟨hsz, hs.2, peak_le_reservation chunk, hheld, ?_⟩
+  rw [hs.2] at hb
+  omega
+
 /-! ### The writer without a callback (`callback=None`), Model/WriterNC.lean -/
 
 /-- **C09_nocb_refines**: every schedule of the writer without a callback is, step by step expanded,
@@ -904,4 +1030,38 @@ example : (run exTwoFail (init exTwoFail)
       (fun s => ((s.pl 0).owner, s.tasks, s.inFlight)) =
     some (.closed true, [.done true, .done false, .done true, .done false], 0) := by decide
 
+/-! ### non-vacuity (sharded C07 link, memory bound) -/
+
+/-- two shards: C07's file model of the save has one serial image per shard -/
+example : Layout.dataFiles ((exPlanTs ++ exPlanTs).map (·.data)) (some 5) none 0 none =
+    [[1, 1, 1, 2, 2], [1, 1, 1, 2, 2]] := by decide
+example : (planCfg (exPlanTs ++ exPlanTs) (some 5) none 0 6 4).isSome = true ∧
+    (shardsOf (exPlanTs ++ exPlanTs) (some 5) none 0).length = 2 := by decide
+
+/-- an ExternalTensor of 7 bytes with chunk size 3: reservation 3, the copy loop reads 3, 3, 1; an in-memory
+    tensor of 7 bytes reserves 7 -/
+def exArgs : List TArg := [⟨0, true, false, false, [1, 2, 3, 4, 5, 6, 7]⟩, ⟨1, false, false, false, [9, 9, 9, 9, 9, 9, 9]⟩]
+example : copyReads 3 7 7 = [3, 3, 1] := by decide
+example : exArgs.map (peakBytes 3) = [3, 7] ∧ exArgs.map (fun a => reservationBytes 3 a.external a.data.length) = [3, 7] := by
+  decide
+example : ((planArgs 3 exArgs none none 0 2 4).map fun c => c.tensors.map (·.size)) = some [3, 7] := by decide
+
 end IrVerif.WriterN
+
+namespace IrVerif.Writer
+
+/-- a use of it: a flat configuration without failing callbacks, driven WITHOUT a callback (`stepNC` of the
+    general model on `toN cfg`), is deadlock free and every schedule is finite -/
+example {cfg : Cfg} (wf : WF cfg) (hnc : WriterN.ncb (toN cfg) = true) (ls : List WriterN.Label)
+    {t : WriterN.State} (h : WriterN.runNC (toN cfg) (WriterN.init (toN cfg)) ls = some t) :
+    ls.length + WriterN.variant (toN cfg) t ≤ WriterN.variant (toN cfg) (WriterN.init (toN cfg)) :=
+  (WriterN.C09_nocb_schedule_bounded ((C09_flat_is_general cfg).2.2.2.2.2.2 wf) hnc ls h).1
+
+/-- the translation on the non-vacuity configuration `exCfg`: the flat run and the general run agree -/
+example : (run (exCfg false) (init (exCfg false)) [.main 0, .main 0, .take, .take, .task 0, .task 1]).map absState =
+    WriterN.run (toN (exCfg false)) (WriterN.init (toN (exCfg false)))
+      [.owner 0 0, .owner 0 0, .take 0, .take 0, .task 0, .task 1] := by decide
+
+example : WriterN.wfb (toN (exCfg false)) = true := by decide
+
+end IrVerif.Writer
